@@ -53,6 +53,8 @@ Step ==
        /\ Check("C02.vehicles-with-id", c, l, cf => ForRuns(LAMBDA ents, r : C02_IdVehicles(ents, r)))
        /\ Check("C02.vehicles-without-id", c, l, cf => ForRuns(LAMBDA ents, r : C02_IdlessVehicles(ents, r)))
        /\ Check("C02.alerts", c, l, cf => ForRuns(LAMBDA ents, r : C02_Alerts(ents, r)))
+       /\ Check("C02.alert-selectors", c, l,
+                cf => ForRuns(LAMBDA ents, r : AlertClauses(ents, r, LAMBDA a, ies, rr : C12_UsefulSelectorsInOrder(a, ies))))
        /\ Check("C04.links", c, l, cf => ForRuns(LAMBDA ents, r : C04_Links(ents, r)))
        /\ Check("C07.order-independent", c, l,
                 cf => \A k \in Runs : (Ok(k) /\ Ok(1) /\ e.runs[k].zone = e.runs[1].zone) =>
